@@ -27,6 +27,8 @@ import (
 
 	"github.com/tink-crypto/tink-go/v2/insecuresecretdataaccess"
 	"github.com/tink-crypto/tink-go/v2/key"
+	"github.com/tink-crypto/tink-go/v2/mac/aescmac"
+	"github.com/tink-crypto/tink-go/v2/mac/hmac"
 	"github.com/tink-crypto/tink-go/v2/prf"
 	"github.com/tink-crypto/tink-go/v2/prf/aescmacprf"
 	"github.com/tink-crypto/tink-go/v2/prf/hkdfprf"
@@ -490,6 +492,10 @@ func hkdfSection(x *h.X) {
 			x.Fail("construct", "%s: NewParameters: %v", cfg, err)
 			return
 		}
+		// the caller REUSES its salt buffer right after the constructor returned (the parameters must own a copy)
+		for i := range s {
+			s[i] ^= 0xA5
+		}
 		k, err := hkdfprf.NewKey(sd(kb), params)
 		if err != nil {
 			x.Fail("construct", "%s: NewKey: %v", cfg, err)
@@ -681,6 +687,26 @@ func prfKinds() []prfKind {
 	}
 }
 
+// unusableKinds: keys a PRF keyset can hold in disabled / destroyed entries although no PRF can be built from them.
+func unusableKinds() []prfKind {
+	return []prfKind{
+		{"AES-CMAC-MAC-key(not a PRF)", func() (key.Key, error) {
+			p, err := aescmac.NewParameters(aescmac.ParametersOpts{KeySizeInBytes: 32, TagSizeInBytes: 16, Variant: aescmac.VariantNoPrefix})
+			if err != nil {
+				return nil, err
+			}
+			return aescmac.NewKey(sd(ref.KeyBytes("set-foreign-cmac", 32)), p, 0)
+		}, nil, 0},
+		{"HMAC-MAC-key(not a PRF)", func() (key.Key, error) {
+			p, err := hmac.NewParameters(hmac.ParametersOpts{KeySizeInBytes: 32, TagSizeInBytes: 16, HashType: hmac.SHA256, Variant: hmac.VariantNoPrefix})
+			if err != nil {
+				return nil, err
+			}
+			return hmac.NewKey(sd(ref.KeyBytes("set-foreign-hmac", 32)), p, 0)
+		}, nil, 0},
+	}
+}
+
 var statuses = []tinkpb.KeyStatusType{tinkpb.KeyStatusType_ENABLED, tinkpb.KeyStatusType_DISABLED, tinkpb.KeyStatusType_DESTROYED}
 var statusNames = []string{"ENABLED", "DISABLED", "DESTROYED"}
 
@@ -698,12 +724,19 @@ func setSection(x *h.X) {
 	if size == 3 && !x.Thorough() {
 		nk = 3
 	}
+	// two more kinds that can only sit in NON-ENABLED entries: keys from which no PRF can be built (a MAC key, an
+	// HKDF-PRF key with a hash the primitive refuses). The set mirrors the ENABLED keys; what a disabled or destroyed
+	// entry holds must not matter.
+	kinds = append(kinds[:nk:nk], unusableKinds()...)
 	var ks, st []int
 	for i := 0; i < size; i++ {
-		ks = append(ks, x.Choose(fmt.Sprintf("type[%d]", i), nk))
+		ks = append(ks, x.Choose(fmt.Sprintf("type[%d]", i), len(kinds)))
 		x.Label(kinds[ks[i]].name)
 		st = append(st, x.Choose(fmt.Sprintf("status[%d]", i), 3))
 		x.Label(statusNames[st[i]])
+		if ks[i] >= nk && st[i] == 0 {
+			return // an ENABLED key without a PRF: the factory refuses the keyset, nothing to mirror
+		}
 	}
 	primary := x.Choose("primary", size)
 	if st[primary] != 0 {
